@@ -4,6 +4,7 @@ import ScyllaVerif.Model.MetaUpdate
 import ScyllaVerif.Model.ClusterConsumer
 import ScyllaVerif.Model.RefreshFlow
 import ScyllaVerif.Model.C19Establish
+import ScyllaVerif.Model.C19EventWait
 /-! Line-protocol driver for C19.
 
 * `chan <op>;<op>;…` — the merge channel at poll granularity. Producer: `m<x>` merge, `D` drop sender.
@@ -496,6 +497,89 @@ def runEstab (script rej f impl : String) : String :=
 
 end Estab
 
+/-! ### evwait: `ControlConnectionEvents::wait_for_event` at poll granularity (checker: `select!` picks at random when an
+event and the connection error are both ready) -/
+section EvWait
+open ScyllaVerif.C19EventWait
+
+def evLabel (e : Nat) : String :=
+  let k := e / 256
+  (if k == 0 then "up:" else if k == 1 then "down:" else "topo:") ++ toString (e % 256)
+
+def outLabel : Out → String
+  | .pending => "pending"
+  | .event e => evLabel e
+  | .broken => "broken"
+  | .shutdown => "shutdown"
+
+def outStr (o : Out) : String := if o == .pending then "pending" else "ready[" ++ outLabel o ++ "]"
+
+/-- One poll; when both arms are ready the implementation's own answer (`want`, an inner label) picks the arm. -/
+def pollGuided (c : Conn) (want : Option String) : Conn × Out :=
+  let a := C19EventWait.poll c false
+  let b := C19EventWait.poll c true
+  if a.2 != b.2 && want == some (outLabel b.2) then b else a
+
+def innerOf (tok : String) : Option String :=
+  if tok.startsWith "ready[" && tok.endsWith "]" then some ((tok.drop 6).dropEnd 1).toString else none
+
+/-- `evwait cap=<c> <op>;…`: `u<n>` / `d<n>` / `t<n>` the reader delivers STATUS_CHANGE UP / DOWN / TOPOLOGY_CHANGE of
+node n (`ok` | `full`); `w` one poll of the wait (a fresh `wait_for_event()` if none is alive; `pending` keeps it alive);
+`c` drops the alive wait (`cancelled` | `idle`); `b` the connection reports its failure (`ok` | `used`); `s` the error
+sender is dropped. `ready[broken]` / `ready[shutdown]` end the case (`end`). Otherwise a final `drain[…]` polls until
+`pending`. -/
+def runEvWait (capw : String) (ops : List String) (impl : String) : String :=
+  if !capw.startsWith "cap=" then "bad-case" else
+  match (capw.drop 4).toString.toNat? with
+  | none => "bad-case"
+  | some cap =>
+  if cap == 0 || cap > 64 then "bad-case" else
+  let implToks := impl.splitOn ";"
+  let rec drain : Nat → Conn → List String → List String → Conn × List String
+    | 0, c, _, acc => (c, acc.reverse)
+    | fuel + 1, c, wants, acc =>
+      let (c', o) := pollGuided c wants.head?
+      match o with
+      | .pending => (c', acc.reverse)
+      | .event _ => drain fuel c' (wants.drop 1) (outLabel o :: acc)
+      | _ => (c', (outLabel o :: acc).reverse)
+  let rec go : List String → Nat → Conn → Bool → List String → Option (List String)
+    | [], i, c, _, out =>
+      let wants := match implToks[i]? with
+        | some t => if t.startsWith "drain[" && t.endsWith "]" then ((t.drop 6).dropEnd 1).toString.splitOn "," else []
+        | none => []
+      let (_, labs) := drain (c.queue.length + 2) c wants []
+      some (("drain[" ++ (if labs.isEmpty then "-" else ",".intercalate labs) ++ "]") :: out).reverse
+    | op :: rest, i, c, alive, out =>
+      match splitOp op with
+      | none => none
+      | some (k, arg) =>
+        if k == 'u' || k == 'd' || k == 't' then
+          match arg.toNat? with
+          | none => none
+          | some n =>
+            if n > 255 then none else
+            let e := (if k == 'u' then 0 else if k == 'd' then 1 else 2) * 256 + n
+            let c' := C19EventWait.step c (.push e)
+            go rest (i + 1) c' alive ((if c'.accepted.length == c.accepted.length then "full" else "ok") :: out)
+        else if arg != "" then none
+        else if k == 'w' then
+          let (c', o) := pollGuided c ((implToks[i]?).bind innerOf)
+          match o with
+          | .pending => go rest (i + 1) c' true ("pending" :: out)
+          | .event _ => go rest (i + 1) c' false (outStr o :: out)
+          | _ => some ("end" :: outStr o :: out).reverse
+        else if k == 'c' then go rest (i + 1) c false ((if alive then "cancelled" else "idle") :: out)
+        else if k == 'b' then
+          go rest (i + 1) (C19EventWait.step c .breakConn) alive ((if c.err == .idle then "ok" else "used") :: out)
+        else if k == 's' then go rest (i + 1) (C19EventWait.step c .dropErrSender) alive ("ok" :: out)
+        else none
+  match go ops 0 { cap } false [] with
+  | none => "bad-case"
+  | some out => ";".intercalate out
+
+end EvWait
+
 def opsOf (body : String) : List String := (body.splitOn ";").filter (· ≠ "")
 
 def run (case impl : String) : String :=
@@ -505,6 +589,11 @@ def run (case impl : String) : String :=
   | ["slot", body] => runSlot (opsOf body)
   | ["slot"] => runSlot []
   | ["producer", body] => runProducer (opsOf body)
+  -- the refresh interval of the worker (600 s; Duration::MAX and u64::MAX/2 s overflow Instant = "never"): the same
+  -- reference behaviour for all of them (Props.C19 periodic_full_fetches_are_spaced: no periodic fetch within the case)
+  | ["producer", iv, body] => if iv == "iv=600" || iv == "iv=max" || iv == "iv=half" then runProducer (opsOf body) else "bad-case"
+  | ["evwait", capw, body] => runEvWait capw (opsOf body) impl
+  | ["evwait", capw] => runEvWait capw [] impl
   | ["estab", script, rej, f] => runEstab script rej f impl
   | ["worker", body] => runWorker (opsOf body)
   | ["worker"] => runWorker []
